@@ -8,7 +8,14 @@
     code can be replayed step by step. The rings are abstracted to counters (their mechanics
     are C04/C05): [sqh]/[sqt] submissions consumed/published, [cq] completions published and
     not yet released. Three ring modes: default, single issuer (synchronous
-    IORING_REGISTER_SEND_MSG_RING), kernel thread (SQPOLL). *)
+    IORING_REGISTER_SEND_MSG_RING), kernel thread (SQPOLL).
+
+    The poller's [io_uring_enter] can be interrupted by a signal (EINTR): event [PI], either at
+    the call itself (the call does its submission work and then fails: the simulated kernel's
+    [fail_next_enter] injection) or while it is blocked ([PInKernel]: a signal arrives later).
+    [Shared::enter] turns EINTR into [Ok(0)] without [wake_blocked_futures];
+    [Completions::poll] goes on with [set_polling(false)], reloads the tail, processes what is
+    there, stores the head, runs the end-of-poll [wake_blocked_futures] and returns. *)
 From A10 Require Import Base.Word Base.Run Gen.Consts.
 
 Inductive mode := Default | SingleIssuer | KernelThread.
@@ -24,6 +31,8 @@ Inductive ppc :=
   | PInKernel             (* blocked inside io_uring_enter *)
   | PWbH | PWbT | PWbTry  (* wake_blocked_futures: two loads, try_lock *)
   | PClearPolling         (* PollingState::set_polling(false) *)
+  | PClearPollingIntr     (* the same code point, reached from an enter that failed with EINTR: the code as it is
+                             does not tell the two apart; a poll that retried its wait would (see [pstep_loop]) *)
   | PLoadCqT2             (* reload CQ tail *)
   | PStoreHead            (* store CQ head *)
   | PEndWbH | PEndWbT | PEndWbTry.  (* wake_blocked_futures at the end of every poll (repair of H15); the poll returns afterwards *)
@@ -52,6 +61,8 @@ Record st := {
   aw : bool;              (* local: set_polling(true) reported "awoken" *)
   lh : N;                 (* local: loaded SQ head *)
   seen : N;               (* local: completions the current poll will release *)
+  psub : N;               (* kernel side: what the poller's blocked io_uring_enter submitted before it blocked
+                             (a wait interrupted after submitting something reports the count, not EINTR) *)
   wakers : list waker;
   wlh : list N;           (* per waker local: loaded SQ head *)
   (* ghost *)
@@ -61,14 +72,14 @@ Record st := {
 
 Definition init (m : mode) (c prefill : N) (npolls : nat) (wcalls : list nat) : st :=
   {| md := m; cap := c; sqo := prefill; pstate := 0; sqh := 0; sqt := prefill; cq := 0; holder := None;
-     pp := PIdle; polls := npolls; aw := false; lh := 0; seen := 0;
+     pp := PIdle; polls := npolls; aw := false; lh := 0; seen := 0; psub := 0;
      wakers := map (fun c => {| wp := WIdle; calls := c; wok := false |}) wcalls;
      wlh := map (fun _ => 0) wcalls; owed := false; lost := false |}.
 
 Definition ppc_code (p : ppc) : Z :=
   match p with
   | PIdle | PLoadCqT | PEnterH | PEnterT | PEnterFlags | PWbH | PWbT | PLoadCqT2 | PEndWbH | PEndWbT => 4
-  | PSetPolling | PClearPolling => 8
+  | PSetPolling | PClearPolling | PClearPollingIntr => 8
   | PWbTry | PEndWbTry => 3
   | PStoreHead => 6
   | PInKernel => 998
@@ -90,7 +101,7 @@ Definition upd (s : st) (f : st -> st) : st := f s.
 Definition set_p (s : st) (p : ppc) : st :=
   {| md := md s; cap := cap s; sqo := sqo s; pstate := pstate s; sqh := sqh s; sqt := sqt s; cq := cq s; holder := holder s;
      pp := p; polls := polls s; aw := aw s; lh := lh s; seen := seen s; wakers := wakers s;
-     wlh := wlh s; owed := owed s; lost := lost s |}.
+     wlh := wlh s; psub := psub s; owed := owed s; lost := lost s |}.
 
 (** The kernel consumes [k] wake messages: each posts its message completion and, when
     submitted through the ring, the sender's own completion. *)
@@ -100,7 +111,7 @@ Definition consume (s : st) (k : N) : st :=
   {| md := md s; cap := cap s; sqo := sqo s - o; pstate := pstate s; sqh := sqh s + k'; sqt := sqt s;
      cq := cq s + 2 * (k' - o);
      holder := holder s; pp := pp s; polls := polls s; aw := aw s; lh := lh s; seen := seen s;
-     wakers := wakers s; wlh := wlh s; owed := owed s; lost := lost s |}.
+     wakers := wakers s; wlh := wlh s; psub := psub s; owed := owed s; lost := lost s |}.
 
 Definition consume_all (s : st) : st := consume s (sqt s - sqh s).
 
@@ -117,13 +128,18 @@ Definition sq_full (s : st) (loaded_head : N) : bool := cap s <=? sqt s - loaded
 Definition set_lh (s : st) (v : N) : st :=
   {| md := md s; cap := cap s; sqo := sqo s; pstate := pstate s; sqh := sqh s; sqt := sqt s; cq := cq s; holder := holder s;
      pp := pp s; polls := polls s; aw := aw s; lh := v; seen := seen s; wakers := wakers s;
-     wlh := wlh s; owed := owed s; lost := lost s |}.
+     wlh := wlh s; psub := psub s; owed := owed s; lost := lost s |}.
 
 (** The poll returns. *)
 Definition poll_return (s : st) : st :=
   {| md := md s; cap := cap s; sqo := sqo s; pstate := pstate s; sqh := sqh s; sqt := sqt s; cq := cq s;
      holder := holder s; pp := PIdle; polls := pred (polls s); aw := false; lh := lh s; seen := seen s;
-     wakers := wakers s; wlh := wlh s; owed := false; lost := lost s |}.
+     wakers := wakers s; wlh := wlh s; psub := psub s; owed := false; lost := lost s |}.
+
+Definition set_psub (s : st) (v : N) : st :=
+  {| md := md s; cap := cap s; sqo := sqo s; pstate := pstate s; sqh := sqh s; sqt := sqt s; cq := cq s; holder := holder s;
+     pp := pp s; polls := polls s; aw := aw s; lh := lh s; seen := seen s; wakers := wakers s;
+     wlh := wlh s; psub := v; owed := owed s; lost := lost s |}.
 
 (** Poller steps. *)
 Definition after_enter_ok (s : st) : st := set_p s PWbH.
@@ -134,7 +150,7 @@ Definition enter_wait (s : st) (submitted : N) : st :=
   if 0 <? cq s then after_enter_ok s
   else if aw s then (if 0 <? submitted then after_enter_ok s
                      else set_p s PClearPolling)      (* ETIME: no wake_blocked_futures *)
-  else set_p s PInKernel.
+  else set_psub (set_p s PInKernel) submitted.
 
 (** How many entries a syscall asking for [to_submit] takes. *)
 Definition submitted_count (s : st) (to_submit : N) : N :=
@@ -142,6 +158,12 @@ Definition submitted_count (s : st) (to_submit : N) : N :=
   | KernelThread => 0
   | _ => N.min to_submit (sqt s - sqh s)
   end.
+
+(** [set_polling(false)]: swap(NOT_POLLING), both bits cleared; the poller goes on at [next]. *)
+Definition clear_polling (s : st) (next : ppc) : st :=
+  {| md := md s; cap := cap s; sqo := sqo s; pstate := NOT_POLLING; sqh := sqh s; sqt := sqt s; cq := cq s; holder := holder s;
+     pp := next; polls := polls s; aw := aw s; lh := lh s; seen := seen s;
+     wakers := wakers s; wlh := wlh s; psub := psub s; owed := owed s; lost := lost s |}.
 
 Definition pstep (s : st) : st :=
   match pp s with
@@ -155,18 +177,18 @@ Definition pstep (s : st) : st :=
       if 0 <? cq s then
         {| md := md s; cap := cap s; sqo := sqo s; pstate := pstate s; sqh := sqh s; sqt := sqt s; cq := cq s; holder := holder s;
            pp := PStoreHead; polls := polls s; aw := aw s; lh := lh s; seen := cq s;
-           wakers := wakers s; wlh := wlh s; owed := owed s; lost := lost s |}
+           wakers := wakers s; wlh := wlh s; psub := psub s; owed := owed s; lost := lost s |}
       else set_p s PSetPolling
   | PSetPolling =>
       let awoken := N.testbit (pstate s) 1 in
       {| md := md s; cap := cap s; sqo := sqo s; pstate := IS_POLLING; sqh := sqh s; sqt := sqt s; cq := cq s; holder := holder s;
          pp := match md s with KernelThread => PEnterFlags | _ => PEnterH end;
          polls := polls s; aw := awoken; lh := lh s; seen := seen s;
-         wakers := wakers s; wlh := wlh s; owed := owed s; lost := lost s |}
+         wakers := wakers s; wlh := wlh s; psub := psub s; owed := owed s; lost := lost s |}
   | PEnterH =>
       {| md := md s; cap := cap s; sqo := sqo s; pstate := pstate s; sqh := sqh s; sqt := sqt s; cq := cq s; holder := holder s;
          pp := PEnterT; polls := polls s; aw := aw s; lh := sqh s; seen := seen s;
-         wakers := wakers s; wlh := wlh s; owed := owed s; lost := lost s |}
+         wakers := wakers s; wlh := wlh s; psub := psub s; owed := owed s; lost := lost s |}
   | PEnterT => enter_wait (syscall_submit s (sqt s - lh s)) (submitted_count s (sqt s - lh s))
   | PEnterFlags => enter_wait (syscall_submit s 0) 0
   | PInKernel =>
@@ -176,45 +198,81 @@ Definition pstep (s : st) : st :=
   | PWbH => set_p (set_lh s (sqh s)) PWbT
   | PWbT => if sq_full s (lh s) then set_p s PClearPolling else set_p s PWbTry
   | PWbTry => set_p s PClearPolling
-  | PClearPolling =>
-      {| md := md s; cap := cap s; sqo := sqo s; pstate := NOT_POLLING; sqh := sqh s; sqt := sqt s; cq := cq s; holder := holder s;
-         pp := PLoadCqT2; polls := polls s; aw := aw s; lh := lh s; seen := seen s;
-         wakers := wakers s; wlh := wlh s; owed := owed s; lost := lost s |}
+  | PClearPolling | PClearPollingIntr => clear_polling s PLoadCqT2
   | PLoadCqT2 =>
       {| md := md s; cap := cap s; sqo := sqo s; pstate := pstate s; sqh := sqh s; sqt := sqt s; cq := cq s; holder := holder s;
          pp := PStoreHead; polls := polls s; aw := aw s; lh := lh s; seen := cq s;
-         wakers := wakers s; wlh := wlh s; owed := owed s; lost := lost s |}
+         wakers := wakers s; wlh := wlh s; psub := psub s; owed := owed s; lost := lost s |}
   | PStoreHead =>
       (* head := tail snapshot *)
       {| md := md s; cap := cap s; sqo := sqo s; pstate := pstate s; sqh := sqh s; sqt := sqt s; cq := cq s - seen s;
          holder := holder s; pp := PEndWbH; polls := polls s; aw := aw s; lh := lh s; seen := 0;
-         wakers := wakers s; wlh := wlh s; owed := owed s; lost := lost s |}
+         wakers := wakers s; wlh := wlh s; psub := psub s; owed := owed s; lost := lost s |}
   | PEndWbH => set_p (set_lh s (sqh s)) PEndWbT
   | PEndWbT => if sq_full s (lh s) then poll_return s else set_p s PEndWbTry
   | PEndWbTry => poll_return s
   end.
 
-(** The poller is blocked and the scheduler found nobody who could still run. *)
+(** The poller's step when its [io_uring_enter] is interrupted by a signal.
+    At the call ([PEnterT], [PEnterFlags]): the kernel does the submission work of the call and
+    then the call fails with EINTR, whatever is in the completion queue (this is what the
+    simulated kernel's [fail_next_enter] does; Linux itself fails with EINTR only when it would
+    have waited and nothing was submitted: the model allows more).
+    While blocked ([PInKernel]): a signal arrives. Like Linux (and the simulated kernel's
+    [BlockAction::Eintr]) the call reports success when a completion is there by now or when it
+    had submitted something, EINTR otherwise.
+    EINTR: [Shared::enter] returns [Ok(0)] without [wake_blocked_futures]; [set_polling(false)]
+    is next. At every other point it is the ordinary poller step. *)
+Definition pintr (s : st) : st :=
+  match pp s with
+  | PEnterT => set_p (syscall_submit s (sqt s - lh s)) PClearPollingIntr
+  | PEnterFlags => set_p (syscall_submit s 0) PClearPollingIntr
+  | PInKernel =>
+      let s' := match md s with KernelThread => consume_all s | _ => s end in
+      if 0 <? cq s' then after_enter_ok s'
+      else if psub s =? 0 then set_p s' PClearPollingIntr
+      else after_enter_ok s'
+  | _ => pstep s
+  end.
+
+(** NOT the code as it is: [Completions::poll] waiting again after an interrupted enter
+    ([loop { set_polling(true); enter; set_polling(false); if EINTR continue }]). Kept for
+    [eintr_retry_loses_wakeup_refuted]: the second [set_polling(true)] no longer sees the awoken
+    bit the first one consumed. *)
+Definition pstep_loop (s : st) : st :=
+  match pp s with
+  | PClearPollingIntr => clear_polling s PSetPolling
+  | _ => pstep s
+  end.
+Definition pintr_loop (s : st) : st :=
+  match pp s with
+  | PEnterT | PEnterFlags | PInKernel => pintr s
+  | _ => pstep_loop s
+  end.
+
+(** The poller is blocked and the scheduler found nobody who could still run: the harness lets
+    the wait end like an expired timeout (ETIME: no [wake_blocked_futures]; or the submitted
+    count when the call had submitted something) so that the run can finish. *)
 Definition pstuck (s : st) : st :=
   {| md := md s; cap := cap s; sqo := sqo s; pstate := pstate s; sqh := sqh s; sqt := sqt s; cq := cq s; holder := holder s;
-     pp := PClearPolling; polls := polls s; aw := aw s; lh := lh s; seen := seen s;
-     wakers := wakers s; wlh := wlh s; owed := owed s; lost := lost s || owed s |}.
+     pp := (if psub s =? 0 then PClearPolling else PWbH); polls := polls s; aw := aw s; lh := lh s; seen := seen s;
+     wakers := wakers s; wlh := wlh s; psub := psub s; owed := owed s; lost := lost s || owed s |}.
 
 Definition set_w (s : st) (i : nat) (w : waker) : st :=
   {| md := md s; cap := cap s; sqo := sqo s; pstate := pstate s; sqh := sqh s; sqt := sqt s; cq := cq s; holder := holder s;
      pp := pp s; polls := polls s; aw := aw s; lh := lh s; seen := seen s;
      wakers := firstn i (wakers s) ++ w :: skipn (S i) (wakers s);
-     wlh := wlh s; owed := owed s; lost := lost s |}.
+     wlh := wlh s; psub := psub s; owed := owed s; lost := lost s |}.
 
 Definition set_wlh (s : st) (i : nat) (v : N) : st :=
   {| md := md s; cap := cap s; sqo := sqo s; pstate := pstate s; sqh := sqh s; sqt := sqt s; cq := cq s; holder := holder s;
      pp := pp s; polls := polls s; aw := aw s; lh := lh s; seen := seen s; wakers := wakers s;
-     wlh := firstn i (wlh s) ++ v :: skipn (S i) (wlh s); owed := owed s; lost := lost s |}.
+     wlh := firstn i (wlh s) ++ v :: skipn (S i) (wlh s); psub := psub s; owed := owed s; lost := lost s |}.
 
 Definition set_holder (s : st) (h : option nat) : st :=
   {| md := md s; cap := cap s; sqo := sqo s; pstate := pstate s; sqh := sqh s; sqt := sqt s; cq := cq s; holder := h;
      pp := pp s; polls := polls s; aw := aw s; lh := lh s; seen := seen s; wakers := wakers s;
-     wlh := wlh s; owed := owed s; lost := lost s |}.
+     wlh := wlh s; psub := psub s; owed := owed s; lost := lost s |}.
 
 Definition call_done (w : waker) : waker := {| wp := WIdle; calls := pred (calls w); wok := false |}.
 Definition at_pc (w : waker) (p : wpc) : waker := {| wp := p; calls := calls w; wok := wok w |}.
@@ -235,7 +293,7 @@ Definition wstep (s : st) (i : nat) : st :=
             let s1 := {| md := md s; cap := cap s; sqo := sqo s; pstate := N.lor old IS_AWOKEN; sqh := sqh s; sqt := sqt s;
                          cq := cq s; holder := holder s; pp := pp s; polls := polls s; aw := aw s;
                          lh := lh s; seen := seen s; wakers := wakers s; wlh := wlh s;
-                         owed := true; lost := lost s |} in
+                         psub := psub s; owed := true; lost := lost s |} in
             if old =? IS_POLLING then
               match md s with
               | SingleIssuer =>
@@ -243,7 +301,7 @@ Definition wstep (s : st) (i : nat) : st :=
                   let s2 := {| md := md s1; cap := cap s1; sqo := sqo s1; pstate := pstate s1; sqh := sqh s1; sqt := sqt s1;
                                cq := cq s1 + 1; holder := holder s1; pp := pp s1; polls := polls s1;
                                aw := aw s1; lh := lh s1; seen := seen s1; wakers := wakers s1;
-                               wlh := wlh s1; owed := owed s1; lost := lost s1 |} in
+                               wlh := wlh s1; psub := psub s1; owed := owed s1; lost := lost s1 |} in
                   set_w s2 i (call_done w)
               | _ => set_w s1 i (at_pc w WAddH1)
               end
@@ -271,7 +329,7 @@ Definition wstep (s : st) (i : nat) : st :=
     | WAddStore =>
         let s1 := {| md := md s; cap := cap s; sqo := sqo s; pstate := pstate s; sqh := sqh s; sqt := sqt s + 1; cq := cq s;
                      holder := None; pp := pp s; polls := polls s; aw := aw s; lh := lh s;
-                     seen := seen s; wakers := wakers s; wlh := wlh s; owed := owed s; lost := lost s |} in
+                     seen := seen s; wakers := wakers s; wlh := wlh s; psub := psub s; owed := owed s; lost := lost s |} in
         set_w s1 i (at_pc_ok w (match md s with KernelThread => WEnterFlags | _ => WEnterH end) true)
     | WEnterH => set_w (set_wlh s i (sqh s)) i (at_pc w WEnterT)
     | WEnterT =>
@@ -289,14 +347,24 @@ Definition wstep (s : st) (i : nat) : st :=
   end.
 
 (** Events: thread 0 is the poller, thread i+1 is waker i. [Stuck] is the scheduler's report
-    that the blocked poller can never be resumed. *)
-Inductive ev := P | W (i : nat) | Stuck.
+    that the blocked poller can never be resumed. [PI]: the poller runs its next step and, if
+    that step is (or is inside) the [io_uring_enter] call, the call is interrupted by a signal. *)
+Inductive ev := P | W (i : nat) | Stuck | PI.
 
 Definition step (s : st) (e : ev) : st * list Z :=
   match e with
   | P => (pstep s, [])
   | W i => (wstep s i, [])
   | Stuck => (match pp s with PInKernel => pstuck s | _ => s end, [])
+  | PI => (pintr s, [])
+  end.
+
+(** The step function of the retrying variant (refutation only). *)
+Definition step_loop (s : st) (e : ev) : st * list Z :=
+  match e with
+  | P => (pstep_loop s, [])
+  | PI => (pintr_loop s, [])
+  | _ => step s e
   end.
 
 (** * Correspondence driver: per executed step the scheduling-point code the model expects the
@@ -309,6 +377,7 @@ Fixpoint run_steps (s : st) (es : list ev) : st * list Z :=
                   | P => ppc_code (pp s)
                   | W i => match nth_error (wakers s) i with Some w => wpc_code (wp w) | None => (-9)%Z end
                   | Stuck => 999%Z
+                  | PI => match pp s with PInKernel => 997%Z | p => ppc_code p end
                   end in
       let '(s1, o) := run_steps (fst (step s e)) r in (s1, here :: o)
   end.
